@@ -1,9 +1,10 @@
 """C17: behaviour depends only on history (constructors initialise everything); copies are equivalent."""
 from contracts.common import *
 from contracts.machine import *
-import contracts.c10 as c10
+import importlib as _il
+c10 = globals().get('C10_MODULE') or _il.import_module('contracts.c10')
 
-CAPMAX = 4
+CAPMAX = globals().get('CAPMAX_OVERRIDE', 4)
 C17_RECS = dict(c10.PL_RECS); C17_RECS.update({'CoreT': r'^ffsm2::detail::CoreT<', 'TransitionT': r'^ffsm2::detail::TransitionT<int>$', 'TransitionBase': r'^ffsm2::detail::TransitionBase$',
                                               'Registry': r'^ffsm2::detail::Registry$', 'LoggerInterfaceT': r'^ffsm2::LoggerInterfaceT<', 'TaskStatus': r'^ffsm2::detail::TaskStatus$'})
 C17_CONSTS = dict(c10.PL_CONSTS); C17_CONSTS['TaskListT__NCapacity'] = ('range', 1, CAPMAX); C17_CONSTS['TasksBits__NCapacity'] = ('range', 1, 8)
